@@ -67,7 +67,7 @@ def entry_text(e, escname):
     return f'(INTERCONNECT {escname(e["a"])} {escname(e["b"])} {body})'
 
 
-LAYOUTS = ['plain', 'multi_delay', 'timingcheck_between', 'delay_first', 'empty_delay', 'headers', 'oneline']
+LAYOUTS = ['plain', 'multi_delay', 'timingcheck_between', 'delay_first', 'empty_delay', 'headers', 'oneline', 'timescale_ps', 'timescale_us', 'no_timescale']
 
 
 def render_sdf(blocks, escape, layout='plain'):
@@ -75,12 +75,15 @@ def render_sdf(blocks, escape, layout='plain'):
     plain: CELLTYPE, INSTANCE, one DELAY section | multi_delay: every entry in a DELAY section of its own |
     timingcheck_between: two DELAY sections with a TIMINGCHECK section between them | delay_first: DELAY section before
     CELLTYPE/INSTANCE | empty_delay: an empty DELAY section precedes the real one | headers: all optional file header
-    entries and // comments | oneline: no line breaks"""
+    entries and // comments | oneline: no line breaks | timescale_ps / timescale_us / no_timescale: other TIMESCALE headers (values are annotated as written)"""
     escname = (lambda s: s.replace('.', '\\.')) if escape else (lambda s: s)
     out = ['(DELAYFILE', '(SDFVERSION "OVI 2.1")', '(DESIGN "top")']
     if layout == 'headers':
         out += ['// a comment line', '(DATE "Sat Oct  3 2026")', '(VENDOR "v")', '(PROGRAM "p")', '(VERSION "1.0")', '(DIVIDER /)', '(VOLTAGE 1.2:1.2:1.2)',
                 '(PROCESS "typ")', '(TEMPERATURE 25:25:25)', '(TIMESCALE 1ns) // trailing comment']
+    elif layout == 'timescale_ps': out += ['(DIVIDER /)', '(TIMESCALE 100 ps)']      # the values are annotated as written, whatever unit the header names
+    elif layout == 'timescale_us': out += ['(DIVIDER /)', '(TIMESCALE 1us)']
+    elif layout == 'no_timescale': out += ['(DIVIDER /)']
     else:
         out += ['(DIVIDER /)', '(TIMESCALE 1ns)']
     def section(entries):
